@@ -612,6 +612,10 @@ pub fn run_case(tape: &mut Tape, _tier: Tier, _p: &CaseParams) -> CaseOutcome {
       format!("{}{}/{}", REGISTRY, nv.name, nv.version),
       format!("{}{}/{}-x/mod.ts", REGISTRY, nv.name, nv.version),
       format!("{}{}x/{}/mod.ts", REGISTRY, nv.name, nv.version),
+      // version segments that a lenient version parser reads as this version
+      format!("{}{}/v{}/mod.ts", REGISTRY, nv.name, nv.version),
+      format!("{}{}/={}/mod.ts", REGISTRY, nv.name, nv.version),
+      format!("{}{}/{}+build/mod.ts", REGISTRY, nv.name, nv.version),
     ] {
       probes.insert(p);
     }
